@@ -146,6 +146,13 @@ def handshake(chk, prog):
             users = [blk for blk, t in c.calls() if (t.get("callee") or "").endswith("Fn::call") or (t.get("callee") or "").endswith("Sender::<T>::send")]
             from .c01 import some_edge_of
             ok_edges = [e for hb in hcalls for e in some_edge_of(prog, c, hb, "Ok")]
+            # the stream is wrapped as a WebSocket stream only once the handshake has succeeded: a WebsocketStream that exists during a
+            # refused handshake sends a Close frame from its destructor on a connection that never left HTTP
+            for wb, wt in c.calls_to(r"stream::WebsocketStream::new$"):
+                okw = bool(ok_edges) and core.must_pass(c, [0], [wb], through_edges=ok_edges, after_from=False) is None
+                chk.ob("R2.handshake", p, "the connection becomes a WebsocketStream only after a successful handshake", okw,
+                       "WebsocketStream::new is reached before / without the handshake's Ok: if the handshake is refused, dropping the wrapper writes a Close frame to an HTTP client",
+                       where=c.where(wb))
             for ub in users:
                 n += 1
                 ok = any(lab == "true" and desc_contains(d, lambda y: y[0] == "call" and y[1].endswith("::is_ok") and desc_contains(y[2], lambda z: z[0] == "call" and z[1].endswith("handshake")))
